@@ -126,17 +126,20 @@ def returns(ctx, cfg, fs):
         good = rn.bb not in reach and not any(x in reach for x in ok_return_blocks(b))
     ctx.ob('H.help-first', 'run_subparser:help-found-is-final', good, 'once the help/version flag is found neither a value nor an error can be returned: %s' % good, where=ie.where(), cfg=cfg)
     # P payload
-    rh = [c for c in b.calls() if c.is_(r'^meta_help::render_help$')]
-    for c in rh:
-        a = [provenance(b, x, c.bb, 'term') for x in c.args[:4]]
+    rh = sites_through_helpers(fs, b, r'^meta_help::render_help$')
+    for c, via in rh:
+        at = c if via is None else via[0]        # the position in run_subparser
+        a = [roots_at(fs, b, c, via, x) for x in c.args[:4]]
         d = [sorted({'%s:%s.%s' % (r.kind, r.what if r.kind != 'call' else short(r.call.name), '.'.join(r.path)) for r in rs}) for rs in a]
         ok = (all(r.kind == 'param' and r.what == 'args' and r.path == ['path'] for r in a[0]) and all(r.kind == 'param' and r.what == 'self' and r.path == ['info'] for r in a[1])
               and all(r.kind == 'call' and r.call.is_(r'::meta$') and not r.call.is_(r'info::Info') for r in a[2]) and all(r.kind == 'call' and r.call.is_(r'info::Info as Parser.*::meta$') for r in a[3]))
+        ok &= all(bool(x) for x in a)
         for r in a[2]:
             if r.kind == 'call':
-                ok &= all(q.kind == 'param' and q.what == 'self' and q.path == ['inner'] for q in provenance(b, r.call.args[0], r.call.bb, 'term'))
-        tag = 'fallback' if errt is None or not only_via_edge(b, sw.b, okt, c.bb) else 'help'
-        ctx.ob('P.payload', 'run_subparser:render_help-args:%s' % tag, ok, 'render_help(%s) describes this level: path of this state, own info, own parser meta, own help/version meta' % d, where=c.where(), cfg=cfg)
+                via2 = via if (via is not None and r.call.body is via[1]) else None
+                ok &= all(q.kind == 'param' and q.what == 'self' and q.path == ['inner'] for q in roots_at(fs, b, r.call, via2, r.call.args[0]))
+        tag = 'fallback' if errt is None or not only_via_edge(b, sw.b, okt, at.bb) else 'help'
+        ctx.ob('P.payload', 'run_subparser:render_help-args:%s' % tag, ok, 'render_help(%s) describes this level: path of this state, own info, own parser meta, own help/version meta' % d, where=at.where(), cfg=cfg)
     # detailed comes from Help(d)
     det = False
     for i, k, st in b.stmts():
